@@ -25,6 +25,9 @@ def main():
     matrix = json.load(open(out_path)) if os.path.exists(out_path) else {}
     for name in names:
         sd = os.path.join(VERIF, 'seeded', name)
+        if not os.path.exists(os.path.join(sd, 'meta.json')):
+            print(name, 'not imported, skipped')
+            continue
         meta = json.load(open(os.path.join(sd, 'meta.json')))
         wt = tempfile.mkdtemp(prefix='pvsim_seed_', dir=os.environ.get('TMPDIR', '/tmp'))
         os.rmdir(wt)
